@@ -161,6 +161,10 @@ func findFirstBetween(value, sub, start, finish any) (any, error) {
 		j = n
 	}
 
+	if i > j {
+		return nil, nil
+	}
+
 	r := strings.Index(s[i:j], p)
 	if r == -1 {
 		return nil, nil
@@ -368,6 +372,10 @@ func findLastBetween(value, sub, start, finish any) (any, error) {
 		}
 
 		j = n
+	}
+
+	if i > j {
+		return nil, nil
 	}
 
 	r := strings.LastIndex(s[i:j], p)
